@@ -61,6 +61,23 @@ Theorem C15_fee_rate_no_division_by_zero : forall rate, swap_rate_ok true rate =
 Proof. exact fee_rate_no_division_by_zero. Qed.
 Print Assumptions C15_fee_rate_no_division_by_zero.
 
+(* ---- LiquidityBase / LiquidityQuote (reached by Query/CalculationCreatePosition with the pool's
+        current sqrt price and the sqrt price of a requested tick, which may coincide): never a
+        division by zero, for any amount and any two prices; the early return on a zero price
+        difference is what makes this true *)
+Theorem C15_liquidity_base_no_division_by_zero : forall amount sa sb, liq_base true amount sa sb <> DDivZero.
+Proof. exact liq_base_no_division_by_zero. Qed.
+Print Assumptions C15_liquidity_base_no_division_by_zero.
+
+Theorem C15_liquidity_quote_no_division_by_zero : forall amount sa sb, liq_quote true amount sa sb <> DDivZero.
+Proof. exact liq_quote_no_division_by_zero. Qed.
+Print Assumptions C15_liquidity_quote_no_division_by_zero.
+
+Theorem C15_liquidity_guard_needed :
+  liq_base false 1000 P P = DDivZero /\ liq_quote false 1000 P P = DDivZero.
+Proof. exact (conj liq_base_without_guard_divides_by_zero liq_quote_without_guard_divides_by_zero). Qed.
+Print Assumptions C15_liquidity_guard_needed.
+
 (* ---- the pinned commit violates the property (regression witnesses) *)
 Theorem C15_pristine_decode_refuted : exists doc pb, decode pristine doc pb = Panic.
 Proof. exact (ex_intro _ _ (ex_intro _ _ memo_swap_not_object)). Qed.
